@@ -49,12 +49,12 @@ def gen_galaxy(r):
     return dict(shape=(ny, nx), x0=x0, y0=y0, eps=eps, pa=pa, law=law, r0=r0)
 
 
-def fit(gal, img, kw, init=None):
+def fit(gal, img, kw, init=None, geo_fix=None):
     from photutils.isophote import Ellipse, EllipseGeometry
     if init is None:
         de = 0.05 if gal['eps'] < 0.6 else -0.05
         init = dict(x0=gal['x0'] + 0.8, y0=gal['y0'] - 0.6, sma=12.0, eps=gal['eps'] + de, pa=gal['pa'] + 0.1)
-    geo = EllipseGeometry(init['x0'], init['y0'], init['sma'], init['eps'], init['pa'])
+    geo = EllipseGeometry(init['x0'], init['y0'], init['sma'], init['eps'], init['pa'], **(geo_fix or {}))
     with warnings.catch_warnings():
         warnings.simplefilter('ignore')
         return Ellipse(img, geo).fit_image(**kw), init
@@ -62,6 +62,7 @@ def fit(gal, img, kw, init=None):
 
 def recovery(rep, r, n):
     from photutils.isophote import build_ellipse_model
+    fix_offset = r.randrange(6)
     for k in range(n):
         gal = gen_galaxy(r)
         img, truth = galaxy(gal['shape'], gal['x0'], gal['y0'], gal['eps'], gal['pa'], gal['law'], gal['r0'])
@@ -139,11 +140,14 @@ def recovery(rep, r, n):
                                   f'95th percentile {np.percentile(rel, 95):.3g}', rp)
                     continue
         # fixed parameters are honoured exactly
-        which = r.choice(['center', 'pa', 'eps'])
-        kw2 = dict(kw, **{f'fix_{which}': True})
+        # the request is made either through fit_image(fix_*=True) or through the EllipseGeometry constructor; the six combinations are
+        # visited in turn so that every run of >= 6 galaxies sees them all
+        which, route = [(w_, r_) for r_ in ('geometry', 'fit_image') for w_ in ('pa', 'eps', 'center')][(k + fix_offset) % 6]
+        kw2 = dict(kw, **{f'fix_{which}': True}) if route == 'fit_image' else dict(kw)
         init2 = dict(x0=gal['x0'] + 0.4, y0=gal['y0'] - 0.3, sma=12.0, eps=min(0.85, max(0.05, gal['eps'] + 0.03)), pa=gal['pa'] + 0.05)
+        rep.count(f'fix-request:{which}:{route}')
         try:
-            iso2, _ = fit(gal, img, kw2, init2)
+            iso2, _ = fit(gal, img, kw2, init2, geo_fix={f'fix_{which}': True} if route == 'geometry' else None)
         except Exception as e:                              # noqa: BLE001
             rep.violation(f'fit_image-raises:{type(e).__name__}:fix_{which}', f'fit_image(fix_{which}=True) raised {e!r}', dict(rp, fix=which))
             continue
@@ -153,8 +157,8 @@ def recovery(rep, r, n):
             bad = ((which == 'center' and (i.x0 != init2['x0'] or i.y0 != init2['y0'])) or (which == 'pa' and i.pa != init2['pa'])
                    or (which == 'eps' and i.eps != init2['eps']))
             if bad:
-                rep.violation(f'fix-not-honoured:{which}', f'fix_{which}=True but the isophote at sma {i.sma:.2f} has '
-                              f'(x0, y0, eps, pa) = ({i.x0}, {i.y0}, {i.eps}, {i.pa}), start {init2}', dict(rp, fix=which, init=init2))
+                rep.violation(f'fix-not-honoured:{which}', f'fix_{which}=True (given to {route}) but the isophote at sma {i.sma:.2f} has '
+                              f'(x0, y0, eps, pa) = ({i.x0}, {i.y0}, {i.eps}, {i.pa}), start {init2}', dict(rp, fix=which, init=init2, route=route))
                 break
 
 
@@ -263,7 +267,7 @@ def run(rep, tier):
     r = rng('C20')
     polar_correspondence(rep, r, 300 * scale)
     growth_correspondence(rep, r, 6 * scale)
-    recovery(rep, r, 6 * scale)
+    recovery(rep, r, 6 * scale * (2 if not rep.lean.ok else 1))      # a broken proof / extraction: search longer for a failing input
 
 
 def replay(rep, data):
